@@ -1,7 +1,7 @@
 #!/usr/bin/env python3
 """Fast regression matrix that never touches /repo: every seeded change and every refactoring is applied
 to its own scratch copy of /repo HEAD (git archive) and checked with a prebuilt checker binary.
-usage: quick_matrix.py <binary> [--all] [--write] [--extra DIR [--only-extra]] [--extra-seeds DIR] [Cxx ...]
+usage: quick_matrix.py <binary> [--all] [--write] [--names a,b] [--extra DIR [--only-extra]] [--extra-seeds DIR] [Cxx ...]
 By default a patch is checked with its own property's check only (seeds: target or `retargeted`);
 --all runs all 20 checks on each patch.  Prints seeds that are not reported and refactorings that are."""
 import glob, json, os, subprocess, sys, tempfile, shutil
@@ -17,6 +17,10 @@ if only_extra: args.remove('--only-extra')
 extra = None
 if '--extra' in args:
     i = args.index('--extra'); extra = args[i+1]; del args[i:i+2]
+names = None
+if '--names' in args:
+    # --names C02-22,C04-22: only these seeds/refactorings; with --write --all the results are merged into RESULTS.json
+    i = args.index('--names'); names = set(args[i+1].split(',')); del args[i:i+2]
 only = args
 props = ['C%02d' % i for i in range(1, 21)]
 env = dict(os.environ, GOFLAGS='-mod=mod', GOPROXY='off', GOSUMDB='off', GOTOOLCHAIN='local', VERIF_BIN=binary)
@@ -44,6 +48,8 @@ if '--extra-seeds' in args:
         n = 'x-' + '-'.join(pf.split('/')[-3:-1]); jobs.append(('seed', n, pf.split('/')[-3], pf))
 if only_extra:
     jobs = [j for j in jobs if j[1].startswith('x-')]
+if names:
+    jobs = [j for j in jobs if j[1] in names]
 if only:
     jobs = [j for j in jobs if allp and True or j[2] in only] if not allp else jobs
     if allp: props = only
@@ -95,7 +101,12 @@ for name, p, tail in crashes:
     print('CHECK CRASHED', p, 'on', name, ':', tail.replace('\n', ' | ')[-200:]); bad += 1
 print('jobs %d, discrepancies %d' % (len(jobs), bad))
 
-if write and allp and not only:
+if write and allp and not only and names:
+    for path, res in (('/verif/seeded/RESULTS.json', seedres), ('/verif/refactors/RESULTS.json', refres)):
+        old = json.load(open(path)); old.update(res)
+        json.dump(old, open(path, 'w'), indent=1, sort_keys=True)
+    print('merged %d seed and %d refactoring results' % (len(seedres), len(refres)))
+elif write and allp and not only:
     json.dump(seedres, open('/verif/seeded/RESULTS.json', 'w'), indent=1, sort_keys=True)
     json.dump(refres, open('/verif/refactors/RESULTS.json', 'w'), indent=1, sort_keys=True)
     tot = len(seedres); caught = sum(1 for v in seedres.values() if v.get('fired')); own = sum(1 for v in seedres.values() if v.get('caught_by_target'))
